@@ -250,6 +250,11 @@ fn main() {
             ingest::direct_ingestlong(&m["prop"], seed, &mut r);
             r
         }
+        ("direct", Some("buildscan")) => {
+            let mut r = Report::default();
+            hist_types::direct_buildscan(&mut r);
+            r
+        }
         ("direct", Some("rayontiny")) => {
             let mut r = Report::default();
             par::direct_rayon_tiny(&mut r);
